@@ -727,6 +727,30 @@ func indexOrLen(s string, c byte) int {
 // yieldSwap: an address holding a yielding output Y and a plain output P. T1 turns Y into a
 // plain output, T2 turns P into a yielding one. Submitted in that order both are pooled; if the
 // production shuffle tries T2 first, its fee computes but it cannot be applied (two incomes).
+// findSwapPair: a wallet holding, confirmed on node n, a yielding and a plain output worth spending
+func (w *World) findSwapPair(n *Node) (*spendable, *spendable) {
+	for _, wl := range w.wallets {
+		var y, p *spendable
+		for _, u := range n.Ureg.Utxos(wl.Addr) {
+			s := spendable{u.TransactionId(), u.OutputIndex(), u.Value(w.next(), w.set.HalfLife, w.set.Base, w.set.ILimit), wl}
+			if s.value <= w.set.Fee+2 {
+				continue
+			}
+			if u.IsYielding() && y == nil {
+				c := s
+				y = &c
+			} else if !u.IsYielding() && p == nil {
+				c := s
+				p = &c
+			}
+		}
+		if y != nil && p != nil {
+			return y, p
+		}
+	}
+	return nil, nil
+}
+
 func (w *World) yieldSwap() {
 	for _, wl := range w.wallets {
 		var y, p *spendable
